@@ -7,22 +7,23 @@ From Coq Require Import List Arith Bool Lia.
 From GI Require Import Gen.ParConsts Par.ParWork Par.ParLib Par.ParCache Par.ParCacheBase.
 Import ListNotations.
 
-Ltac isdsimp := rewrite ?isd_set_present, ?isd_set_locked, ?isd_set_result, ?isd_inc_fbegins, ?isd_inc_fends, ?isd_set_done in *.
+Ltac isdsimp := rewrite ?isd_set_present, ?isd_set_locked, ?isd_set_result, ?isd_inc_fbegins, ?isd_inc_fends, ?isd_set_done, ?isd_add_orph in *.
 Ltac csimp :=
-  rewrite ?fr_goto, ?fr_ret, ?fr_push, ?fr_mk in *;
-  cbn [tpc goto ret push thrs ents plain holds is_call is_inf is_wr is_st b2n
-       present done locked result fbegins fends set_present set_done set_locked set_result inc_fbegins inc_fends] in *.
+  rewrite ?fr_goto, ?fr_ret, ?fr_push, ?fr_mk, ?fr_dead, ?orphans_fr in *;
+  cbn [tpc goto ret push dead thrs ents plain holds is_call is_inf is_wr is_st b2n
+       present done locked result fbegins fends orph set_present set_done set_locked set_result inc_fbegins inc_fends add_orph] in *.
 
 Section Proofs.
 Variable fval : nat -> option nat.
 Variable deps : nat -> list nat.
+Variable crash : nat -> bool.
 Variable progs : list (list call).
 
-Notation cstep := (cstep fval deps).
-Notation crun := (crun fval deps).
+Notation cstep := (cstep fval deps crash).
+Notation crun := (crun fval deps crash).
 Notation init := (cinit progs).
-Notation creachable := (creachable fval deps progs).
-Notation stepC := (stepC fval deps).
+Notation creachable := (creachable fval deps crash progs).
+Notation stepC := (stepC fval deps crash).
 
 (* ---- group B: values, nesting discipline *)
 Definition deps_done (e : nat -> entry) (k : nat) : Prop := forall d, In d (deps k) -> isd (e d) = true.
@@ -135,7 +136,8 @@ Qed.
 
 Lemma step_mono s t th s' : InvA s -> nth_error (thrs s) t = Some th -> stepC s t th s' -> mono (ents s) (ents s').
 Proof.
-  intros HA Hn HS; destruct HS; cbn [ents]; try apply mono_refl; apply mono_upd; isdsimp; auto.
+  intros HA Hn HS; destruct HS; cbn [ents]; try apply mono_refl; try (apply mono_upd; isdsimp; auto; fail).
+  intros k' Hk'. isdsimp. exact Hk'.
 Qed.
 
 Lemma step_InvB s t th s' : InvA s -> InvB s -> nth_error (thrs s) t = Some th -> stepC s t th s' -> InvB s'.
@@ -159,8 +161,8 @@ Proof.
     - apply Forall_set_nth; auto. eapply Forall_impl; [|exact Hthr]. intros; eapply thr_ok_mono; eauto. }
   destruct Hok as [Hpc Hrets Hnrets Hframes Hchain].
   assert (Hok : thr_ok (ents s) th) by (constructor; auto).
-  destruct HS as [k0 Hp E|k0 Hp E|k0 Hp|k0 Hp E|k0 Hp E|k0 Hp E|k0 Hp E|k0 Hp E|k0 Hp|k0 j0 Hp E|k0 v Hp|k0 Hp|k0 Hp|k0 Hp E0
-                 |k0 Hp E|k0 Hp E|k0 Hp E|k0 Hp E|k0 Hp|k0 j0 d0 Hp E|k0 k1 j1 st1 Hp E];
+  destruct HS as [k0 Hp E|k0 Hp E|k0 Hp|k0 Hp E|k0 Hp E|k0 Hp E|k0 Hp E|k0 Hp E|k0 Hp|k0 j0 Hp E Ec|k0 v Hp|k0 Hp|k0 Hp|k0 Hp E0
+                 |k0 Hp E|k0 Hp E|k0 Hp E|k0 Hp E|k0 Hp|k0 j0 d0 Hp E|k0 k1 j1 st1 Hp E|k0 j0 Hp E Ec];
     cbn [ents plain thrs] in *; rewrite Hp in Hpc; cbn [pc_ok] in Hpc.
   - apply Hkeep; auto; [intros; rewrite Hp; reflexivity|]. apply (thr_ok_goto (ents s)); auto; try (rewrite Hp; reflexivity); try exact I.
   - apply Hkeep; auto; [intros; rewrite Hp; reflexivity|]. apply (thr_ok_goto (ents s)); auto; try (rewrite Hp; reflexivity); try exact I.
@@ -233,6 +235,10 @@ Proof.
       * rewrite Hj2 in Hd. inversion Hd; subst. exact Hpc.
       * apply (Hf m d); simpl; auto; lia.
     + constructor; auto. split; simpl; auto.
+  - (* f fails: the goroutine is gone; no done flag and no result changes *)
+    apply Hkeep; auto; [intros; rewrite Hp; reflexivity|].
+    destruct (thr_ok_mono _ _ _ Hm Hok) as [H1 H2 H3 H4 H5].
+    constructor; cbn [dead tpc rets nrets stack]; auto; try exact I. reflexivity.
 Qed.
 
 (* ---- group C: the history of plain accesses *)
@@ -277,8 +283,8 @@ Proof.
       + rewrite Hc. apply Hacc. eauto.
     - intros k H. rewrite Hc in H. destruct (Hwr k H) as (t' & Ht'). exists t'. right; auto.
     - simpl. split; [apply Hwr; right; auto|auto]. }
-  destruct HS as [k0 Hp E|k0 Hp E|k0 Hp|k0 Hp E|k0 Hp E|k0 Hp E|k0 Hp E|k0 Hp E|k0 Hp|k0 j0 Hp E|k0 v Hp|k0 Hp|k0 Hp|k0 Hp E0
-                 |k0 Hp E|k0 Hp E|k0 Hp E|k0 Hp E|k0 Hp|k0 j0 d0 Hp E|k0 k1 j1 st1 Hp E];
+  destruct HS as [k0 Hp E|k0 Hp E|k0 Hp|k0 Hp E|k0 Hp E|k0 Hp E|k0 Hp E|k0 Hp E|k0 Hp|k0 j0 Hp E Ec|k0 v Hp|k0 Hp|k0 Hp|k0 Hp E0
+                 |k0 Hp E|k0 Hp E|k0 Hp E|k0 Hp E|k0 Hp|k0 j0 d0 Hp E|k0 k1 j1 st1 Hp E|k0 j0 Hp E Ec];
     try (apply Hgen;
             [ intros k; specialize (Hst k); match goal with |- context [set_nth t ?th' _] => specialize (Hst th') end;
               pose proof (start_cur_neutral (rest th) k) as (_ & _ & _ & _ & Hs5);
@@ -346,10 +352,10 @@ Proof. destruct l as [|[] r]; reflexivity. Qed.
 Lemma bottom_nil st : bottom st = None -> st = [].
 Proof. destruct st as [|[k j] r]; auto. simpl. destruct (bottom r); discriminate. Qed.
 
-Lemma step_calls s t th s' : thr_chain th -> nth_error (thrs s) t = Some th -> stepC s t th s' ->
+Lemma step_calls s t th s' : (forall k, crash k = false) -> thr_chain th -> nth_error (thrs s) t = Some th -> stepC s t th s' ->
   map calls_of (thrs s') = map calls_of (thrs s).
 Proof.
-  intros Hch Hnth HS.
+  intros Hnc Hch Hnth HS.
   assert (Hsame : forall th', calls_of th' = calls_of th -> map calls_of (set_nth t th' (thrs s)) = map calls_of (thrs s)).
   { intros th' He. rewrite map_set_nth, He. apply set_nth_same. rewrite nth_error_map, Hnth. reflexivity. }
   assert (Hgoto : forall p, cur p = cur (tpc th) -> calls_of (goto th p) = calls_of th).
@@ -368,6 +374,7 @@ Proof.
   - (* pop *)
     unfold calls_of, curtop; cbn [tpc stack rest rets]. rewrite H0. cbn [bottom cur].
     destruct (bottom st); reflexivity.
+  - (* no f fails here *) rewrite Hnc in H1; discriminate.
 Qed.
 
 Lemma init_calls : map calls_of (thrs init) = progs.
@@ -415,8 +422,8 @@ Proof.
   { eapply Forall_impl; [|exact Hfr]. simpl; auto. }
   assert (Hd : (forall k, isd (ents s' k) = isd (ents s k)) -> forall k, isd (ents s' k) = true -> present (ents s' k) = true).
   { intros Hi k Hk. rewrite Hi in Hk. auto. }
-  destruct HS as [k0 Hp E|k0 Hp E|k0 Hp|k0 Hp E|k0 Hp E|k0 Hp E|k0 Hp E|k0 Hp E|k0 Hp|k0 j0 Hp E|k0 v Hp|k0 Hp|k0 Hp|k0 Hp E0
-                 |k0 Hp E|k0 Hp E|k0 Hp E|k0 Hp E|k0 Hp|k0 j0 d0 Hp E|k0 k1 j1 st1 Hp E];
+  destruct HS as [k0 Hp E|k0 Hp E|k0 Hp|k0 Hp E|k0 Hp E|k0 Hp E|k0 Hp E|k0 Hp E|k0 Hp|k0 j0 Hp E Ec|k0 v Hp|k0 Hp|k0 Hp|k0 Hp E0
+                 |k0 Hp E|k0 Hp E|k0 Hp E|k0 Hp E|k0 Hp|k0 j0 d0 Hp E|k0 k1 j1 st1 Hp E|k0 j0 Hp E Ec];
     cbn [ents thrs plain] in *; rewrite Hp in Hpc; constructor; cbn [ents thrs];
     try (apply Hd; intros k; try unfold upd; try (destruct (Nat.eqb_spec k0 k) as [->|]); reflexivity);
     try (apply Hold; split; cbn [goto ret push tpc stack]; auto;
@@ -434,6 +441,8 @@ Proof.
     rewrite E in Hfr'. inversion Hfr' as [|f fs Hf Hfs]; subst.
     apply Hold; split; cbn [tpc stack]; auto.
     intros k Hk; simpl in Hk. apply Nat.eqb_eq in Hk; subst k. exact Hf.
+  - (* f fails: the thread is gone *)
+    apply Hold; split; cbn [dead tpc stack]; auto. intros k Hk; simpl in Hk; discriminate.
 Qed.
 
 (* ---- all invariants on reachable states *)
@@ -443,13 +452,24 @@ Proof.
   apply cstep_inv in Hs as (th & Hnth & HS). eapply step_InvQ; eauto.
 Qed.
 
-Lemma creachable_inv s : creachable s -> InvA s /\ InvB s /\ InvP s /\ map calls_of (thrs s) = progs.
+Lemma creachable_inv s : creachable s ->
+  InvA s /\ InvB s /\ InvP s /\ ((forall k, crash k = false) -> map calls_of (thrs s) = progs).
 Proof.
   induction 1 as [|s t s' Hr (HA & HB & HP & HD) Hs].
-  - split; [|split; [|split]]; [apply init_InvA|apply init_InvB|apply init_InvP|apply init_calls].
+  - split; [|split; [|split]]; [apply init_InvA|apply init_InvB|apply init_InvP|intros _; apply init_calls].
   - apply cstep_inv in Hs as (th & Hnth & HS).
     split; [|split; [|split]]; [eapply step_InvA|eapply step_InvB|eapply step_InvP|]; eauto.
-    rewrite (step_calls _ _ _ _ (t_chain _ _ (Forall_nth_error _ _ _ _ (b_thr _ HB) Hnth)) Hnth HS); auto.
+    intros Hnc.
+    rewrite (step_calls _ _ _ _ Hnc (t_chain _ _ (Forall_nth_error _ _ _ _ (b_thr _ HB) Hnth)) Hnth HS); auto.
+Qed.
+
+(* when no f fails, no entry is orphaned *)
+Lemma creachable_orph0 s : (forall k, crash k = false) -> creachable s -> forall k, orph (ents s k) = 0.
+Proof.
+  intros Hnc. induction 1 as [|s t s' Hr IH Hs]; [reflexivity|].
+  apply cstep_inv in Hs as (th & Hnth & HS). intros k'. specialize (IH k').
+  destruct HS; cbn [ents]; auto; try (unfold upd; destruct (Nat.eqb_spec k k') as [->|]; cbn; auto; fail).
+  match goal with H : crash _ = true |- _ => rewrite Hnc in H; discriminate end.
 Qed.
 
 (* ---- group E: a finished thread has no calls left *)
@@ -464,8 +484,8 @@ Proof.
   - unfold cinit; cbn [thrs]. apply Forall_forall. intros th Hth. apply in_map_iff in Hth as (p & <- & _).
     unfold idle_ok; simpl. apply start_idle.
   - apply cstep_inv in Hs as (th & Hnth & HS).
-    destruct HS; cbn [thrs]; apply Forall_set_nth; auto; unfold idle_ok; cbn [goto ret tpc rest];
-      try discriminate; apply start_idle.
+    destruct HS; cbn [thrs]; apply Forall_set_nth; auto; unfold idle_ok; cbn [goto ret dead tpc rest];
+      try discriminate; try (intros _; reflexivity); apply start_idle.
 Qed.
 
 (* ---- property theorems *)
@@ -598,12 +618,12 @@ Proof.
 Qed.
 
 (* when every thread has finished its program: f_k ran exactly once for every key some Do asked for *)
-Theorem f_exactly_once_at_end s : creachable s -> all_idle s = true ->
+Theorem f_exactly_once_at_end s : (forall k, crash k = false) -> creachable s -> all_idle s = true ->
   forall p k, In p progs -> In (CDo k) p ->
   fbegins (ents s k) = 1 /\ fends (ents s k) = 1 /\ result (ents s k) = fval k.
 Proof.
-  intros Hr Hidle p k Hp Hk.
-  destruct (creachable_inv s Hr) as (HA & HB & _ & HD).
+  intros Hnc Hr Hidle p k Hp Hk.
+  destruct (creachable_inv s Hr) as (HA & HB & _ & HD). specialize (HD Hnc).
   pose proof (creachable_idle s Hr) as HE.
   rewrite <- HD in Hp. apply in_map_iff in Hp as (th & <- & Hth).
   unfold all_idle in Hidle. rewrite forallb_forall in Hidle. specialize (Hidle _ Hth).
@@ -618,6 +638,121 @@ Proof.
   destruct (do_returns_f_value s t th k v Hr Ht Hin) as (_ & ? & ? & ?). auto.
 Qed.
 
+Lemma crun_cons t sch s : crun (t :: sch) s = match cstep s t with Some s' => crun sch s' | None => None end.
+Proof. reflexivity. Qed.
+
+Lemma crun_reachable sch : forall s s', creachable s -> crun sch s = Some s' -> creachable s'.
+Proof.
+  induction sch as [|t sch IH]; intros s s' Hr H; [|rewrite crun_cons in H].
+  - inversion H; subst; auto.
+  - destruct (cstep s t) as [s1|] eqn:E; [|discriminate]. eapply IH; [|exact H]. eapply creach_step; eauto.
+Qed.
+
+(* ---- the key space: entries are per key, and they are never removed *)
+
+(* the key an operation in progress works on *)
+Definition pckey (p : cpc) : option nat :=
+  match p with
+  | GLoad k | GLoad1 k | GRead k => Some k
+  | _ => dokey p
+  end.
+
+Lemma add_orph_0 e : add_orph 0 e = e.
+Proof. destruct e; reflexivity. Qed.
+
+(* a step of a thread touches only the entry of the key its current operation is about (and, when f fails, the
+   entries whose mutex the dying thread holds: those of its suspended frames): the entry of EVERY OTHER key --
+   there is no bound on their number -- is left exactly as it was *)
+Theorem distinct_keys_independent s t th s' k : nth_error (thrs s) t = Some th -> cstep s t = Some s' ->
+  pckey (tpc th) <> Some k -> (forall j, ~ In (k, j) (stack th)) -> ents s' k = ents s k.
+Proof.
+  intros Hn Hs Hk Hst. apply cstep_inv in Hs as (th' & Hn' & HS). rewrite Hn in Hn'. inversion Hn'; subst th'; clear Hn'.
+  destruct HS as [k0 Hp E|k0 Hp E|k0 Hp|k0 Hp E|k0 Hp E|k0 Hp E|k0 Hp E|k0 Hp E|k0 Hp|k0 j0 Hp E Ec|k0 v Hp|k0 Hp|k0 Hp|k0 Hp E0
+                 |k0 Hp E|k0 Hp E|k0 Hp E|k0 Hp E|k0 Hp|k0 j0 d0 Hp E|k0 k1 j1 st1 Hp E|k0 j0 Hp E Ec];
+    cbn [ents]; try reflexivity; rewrite Hp in Hk; simpl in Hk;
+    try (unfold upd; destruct (Nat.eqb_spec k0 k) as [->|]; [exfalso; apply Hk; reflexivity|reflexivity]).
+  unfold orphans. destruct (Nat.eqb_spec k0 k) as [->|Hne]; [exfalso; apply Hk; reflexivity|].
+  assert (Hz : length (filter (fun f : nat * nat => Nat.eqb (fst f) k) (stack th)) = 0).
+  { destruct (filter (fun f : nat * nat => Nat.eqb (fst f) k) (stack th)) as [|[a b] r] eqn:Ef; [reflexivity|].
+    assert (Hin : In (a, b) (filter (fun f : nat * nat => Nat.eqb (fst f) k) (stack th))) by (rewrite Ef; left; reflexivity).
+    apply filter_In in Hin as [Hin Heq]. simpl in Heq. apply Nat.eqb_eq in Heq; subst a. destruct (Hst b Hin). }
+  rewrite Hz. apply add_orph_0.
+Qed.
+
+(* once a key has an entry it keeps it, and once its result is published both the flag and the result stay as
+   they are, whatever happens to any number of other keys afterwards: nothing is ever evicted or recomputed *)
+Theorem entries_never_removed s t s' k : creachable s -> cstep s t = Some s' ->
+  (present (ents s k) = true -> present (ents s' k) = true) /\
+  (isd (ents s k) = true -> isd (ents s' k) = true /\ result (ents s' k) = result (ents s k) /\
+                           fbegins (ents s' k) = 1 /\ fends (ents s' k) = 1).
+Proof.
+  intros Hr Hs.
+  assert (Hr' : creachable s') by (eapply creach_step; eauto).
+  destruct (creachable_inv s Hr) as (HA & HB & _). destruct (creachable_inv s' Hr') as (HA' & HB' & _).
+  split.
+  - apply cstep_inv in Hs as (th & Hnth & HS).
+    destruct HS; cbn [ents]; auto; intros Hk'; try (unfold upd; destruct (Nat.eqb_spec k0 k) as [->|]; simpl; auto);
+      try exact Hk'.
+  - intros Hd.
+    assert (Hd' : isd (ents s' k) = true).
+    { apply cstep_inv in Hs as (th & Hnth & HS). exact (step_mono _ _ _ _ HA Hnth HS k Hd). }
+    destruct (done_f_complete s' k HA' Hd'). repeat split; auto.
+    rewrite (b_res _ HB' k (or_intror Hd')), (b_res _ HB k (or_intror Hd)). reflexivity.
+Qed.
+
+(* ---- an invocation of f that does not return (panic / runtime.Goexit) *)
+
+(* the entry of a key whose f failed: f_k began once and never ended, the mutex is held by nobody who is still
+   running, the result is not published, and no thread is inside or about to call f_k *)
+Theorem crashed_entry s k : creachable s -> 0 < orph (ents s k) ->
+  orph (ents s k) = 1 /\ fbegins (ents s k) = 1 /\ fends (ents s k) = 0 /\ locked (ents s k) = true /\
+  isd (ents s k) = false /\ C (holds k) (thrs s) = 0 /\ F k (thrs s) = 0 /\ C (is_call k) (thrs s) = 0.
+Proof.
+  intros Hr Ho. destruct (creachable_inv s Hr) as (HA & _).
+  pose proof (a_lock _ HA k) as Hl. pose proof (a_nof _ HA k) as Hn.
+  pose proof (a_fb _ HA k) as Hfb. pose proof (a_fe _ HA k) as Hfe.
+  pose proof (C_sum_le k (thrs s)) as Hsum.
+  destruct (isd (ents s k)); [specialize (Hn eq_refl); lia|].
+  destruct (locked (ents s k)); simpl in *; repeat split; lia.
+Qed.
+
+Lemma orph_monotone s t s' k : cstep s t = Some s' -> orph (ents s k) <= orph (ents s' k).
+Proof.
+  intros Hs. apply cstep_inv in Hs as (th & Hnth & HS).
+  destruct HS; cbn [ents]; auto; try (unfold upd; destruct (Nat.eqb_spec k0 k) as [->|]; simpl; auto; fail).
+  cbn [orph add_orph]. lia.
+Qed.
+
+Lemma crun_orph sch : forall s s' k, crun sch s = Some s' -> orph (ents s k) <= orph (ents s' k).
+Proof.
+  induction sch as [|t sch IH]; intros s s' k H; [inversion H; subst; auto|]. rewrite crun_cons in H.
+  destruct (cstep s t) as [s1|] eqn:E; [|discriminate].
+  pose proof (orph_monotone _ _ _ k E). specialize (IH _ _ k H). lia.
+Qed.
+
+(* f is invoked AT MOST ONCE per key also when that invocation does not return: from a state in which f_k has
+   failed, whatever any threads do for however long, f_k is never invoked again (fbegins stays 1), never completes
+   and the key is never published *)
+Theorem f_crash_never_reinvoked s k : creachable s -> 0 < orph (ents s k) ->
+  forall sch s', crun sch s = Some s' ->
+  fbegins (ents s' k) = 1 /\ fends (ents s' k) = 0 /\ isd (ents s' k) = false /\ locked (ents s' k) = true /\
+  C (is_call k) (thrs s') = 0.
+Proof.
+  intros Hr Ho sch s' Hrun.
+  pose proof (crun_reachable _ _ _ Hr Hrun) as Hr'. pose proof (crun_orph _ _ _ k Hrun) as Hle.
+  destruct (crashed_entry s' k Hr') as (_ & H1 & H2 & H3 & H4 & _ & _ & H5); [lia|]. auto.
+Qed.
+
+(* what the callers see: a Do for that key that reaches the entry mutex blocks (for ever, by the theorem above),
+   a Get goes through and returns nil *)
+Theorem crashed_do_blocks_get_nil s t th k : creachable s -> 0 < orph (ents s k) -> nth_error (thrs s) t = Some th ->
+  (tpc th = DLock k -> cstep s t = None) /\
+  (tpc th = GLoad1 k -> cstep s t = Some (mkC (set_nth t (ret th (CGet k) None) (thrs s)) (ents s) (plain s))).
+Proof.
+  intros Hr Ho Hn. destruct (crashed_entry s k Hr Ho) as (_ & _ & _ & Hl & Hd & _).
+  unfold ParCache.cstep. rewrite Hn. split; intros Hp; rewrite Hp; [rewrite Hl|rewrite Hd]; reflexivity.
+Qed.
+
 (* ---- progress and termination *)
 Lemma step_some s t th : nth_error (thrs s) t = Some th -> tpc th <> Idle ->
   (forall k, tpc th = DLock k -> locked (ents s k) = false) -> exists s', cstep s t = Some s'.
@@ -625,7 +760,7 @@ Proof.
   intros Hn Hi Hl. unfold ParCache.cstep. rewrite Hn.
   destruct (tpc th) eqn:Ep; try congruence; eauto;
     try (rewrite (Hl k eq_refl); eauto; fail);
-    try (destruct (nth_error (deps k) j); eauto; fail);
+    try (destruct (nth_error (deps k) j); [|destruct (crash k)]; eauto; fail);
     try (destruct (present (ents s k)); eauto; fail);
     try (destruct (isd (ents s k)); eauto; fail).
 Qed.
@@ -636,16 +771,6 @@ Proof.
   destruct (f a) eqn:E; simpl; intros H.
   - destruct (IH H) as (x & Hx & Hf). exists x; auto.
   - exists a; auto.
-Qed.
-
-Lemma crun_cons t sch s : crun (t :: sch) s = match cstep s t with Some s' => crun sch s' | None => None end.
-Proof. reflexivity. Qed.
-
-Lemma crun_reachable sch : forall s s', creachable s -> crun sch s = Some s' -> creachable s'.
-Proof.
-  induction sch as [|t sch IH]; intros s s' Hr H; [|rewrite crun_cons in H].
-  - inversion H; subst; auto.
-  - destruct (cstep s t) as [s1|] eqn:E; [|discriminate]. eapply IH; [|exact H]. eapply creach_step; eauto.
 Qed.
 
 (* ---- progress and termination need the dependency relation between keys to be acyclic:
@@ -668,13 +793,13 @@ Proof.
 Qed.
 
 (* a thread waiting for e.mu of k: the holder is running, or itself waits for a key of lower level *)
-Lemma blocked_progress s : InvA s -> InvB s -> forall m t th k, nth_error (thrs s) t = Some th ->
+Lemma blocked_progress s : InvA s -> InvB s -> (forall k, orph (ents s k) = 0) -> forall m t th k, nth_error (thrs s) t = Some th ->
   tpc th = DLock k -> L k <= m -> exists t' s', cstep s t' = Some s'.
 Proof.
-  intros HA HB. induction m as [|m IH]; intros t th k Ht Hp Hl.
+  intros HA HB Ho. induction m as [|m IH]; intros t th k Ht Hp Hl.
   all: destruct (locked (ents s k)) eqn:El;
     [|exists t; apply (step_some s t th Ht); rewrite Hp; [congruence|]; intros k' Hk'; inversion Hk'; subst; auto].
-  all: pose proof (a_lock _ HA k) as Hlk; rewrite El in Hlk; simpl in Hlk.
+  all: pose proof (a_lock _ HA k) as Hlk; rewrite El, Ho in Hlk; simpl in Hlk.
   all: destruct (C (holds k) (thrs s)) eqn:Eh;
     [|destruct (cntg_exists (fun th => holds k (tpc th)) (thrs s)) as (t2 & th2 & Ht2 & Hh); [unfold C in Eh; lia|];
       exists t2; apply (step_some s t2 th2 Ht2); destruct (tpc th2); simpl in Hh; congruence].
@@ -689,10 +814,12 @@ Proof.
     apply (IH t2 th2 c Ht2 Ep2). lia.
 Qed.
 
-(* no deadlock: unless every thread has finished its program, some thread has a step *)
-Theorem cache_no_deadlock s : creachable s -> all_idle s = true \/ exists t s', cstep s t = Some s'.
+(* no deadlock (when every f returns): unless every thread has finished its program, some thread has a step *)
+Theorem cache_no_deadlock : (forall k, crash k = false) -> forall s, creachable s ->
+  all_idle s = true \/ exists t s', cstep s t = Some s'.
 Proof.
-  intros Hr. destruct (creachable_inv s Hr) as (HA & HB & _).
+  intros Hnc s Hr. destruct (creachable_inv s Hr) as (HA & HB & _).
+  pose proof (creachable_orph0 s Hnc Hr) as Ho.
   destruct (all_idle s) eqn:Ei; auto. right.
   apply forallb_false in Ei as (th & Hth & Hni). apply In_nth_error in Hth as [t Ht].
   assert (Hnot : tpc th <> Idle) by (unfold is_idle in Hni; destruct (tpc th); congruence).
@@ -776,16 +903,18 @@ Proof.
   assert (Hgen : forall th', tweight th' < tweight th ->
             list_sum (map tweight (set_nth t th' (thrs s))) < list_sum (map tweight (thrs s))).
   { intros th' Hlt. pose proof (sum_set_nth tweight t th' th _ Hn). lia. }
-  destruct HS as [k0 Hp E|k0 Hp E|k0 Hp|k0 Hp E|k0 Hp E|k0 Hp E|k0 Hp E|k0 Hp E|k0 Hp|k0 j0 Hp E|k0 v Hp|k0 Hp|k0 Hp|k0 Hp E0
-                 |k0 Hp E|k0 Hp E|k0 Hp E|k0 Hp E|k0 Hp|k0 j0 d0 Hp E|k0 k1 j1 st1 Hp E];
+  destruct HS as [k0 Hp E|k0 Hp E|k0 Hp|k0 Hp E|k0 Hp E|k0 Hp E|k0 Hp E|k0 Hp E|k0 Hp|k0 j0 Hp E Ec|k0 v Hp|k0 Hp|k0 Hp|k0 Hp E0
+                 |k0 Hp E|k0 Hp E|k0 Hp E|k0 Hp E|k0 Hp|k0 j0 d0 Hp E|k0 k1 j1 st1 Hp E|k0 j0 Hp E Ec];
     cbn [thrs]; apply Hgen;
     try (apply tweight_ret; rewrite Hp; simpl; lia);
-    unfold ParCache.tweight; cbn [goto push tpc stack rest]; rewrite Hp; cbn [ParCache.rank].
+    unfold ParCache.tweight; cbn [goto push dead tpc stack rest]; rewrite Hp; cbn [ParCache.rank].
   all: try lia.
   - (* nested call *)
     rewrite (nested_step _ _ _ E). cbn [map]. rewrite list_sum_cons'. change (frame_cost deps kc (k0, S j0)) with (6 + nested k0 (S j0)). pose proof (kc_ok d0). lia.
   - (* nested return *)
     rewrite E. cbn [map]. rewrite list_sum_cons'. change (frame_cost deps kc (k1, j1)) with (6 + nested k1 j1). lia.
+  - (* f fails: nothing is left of the thread *)
+    cbn [map list_sum fold_right]. lia.
 Qed.
 
 Theorem cache_terminates sch : forall s s', crun sch s = Some s' -> length sch + psi s' <= psi s.
@@ -803,12 +932,13 @@ Proof. intros HL. apply cache_terminates. apply kcL_ok; auto. Qed.
 
 (* every Do terminates when the dependencies are acyclic: from any reachable state some continuation
    of at most psi(s) steps ends with all programs finished *)
-Theorem cache_can_finish L : (forall k d, In d (deps k) -> L d < L k) -> forall s, creachable s ->
+Theorem cache_can_finish L : (forall k d, In d (deps k) -> L d < L k) -> (forall k, crash k = false) ->
+  forall s, creachable s ->
   exists sch s', crun sch s = Some s' /\ all_idle s' = true /\ length sch <= psi deps (kcL L) s.
 Proof.
-  intros HL s. remember (psi deps (kcL L) s) as m eqn:Em. revert s Em.
+  intros HL Hnc s. remember (psi deps (kcL L) s) as m eqn:Em. revert s Em.
   induction m as [m IH] using lt_wf_ind. intros s Em Hr.
-  destruct (cache_no_deadlock L HL s Hr) as [Hd|(t & s1 & Hs)].
+  destruct (cache_no_deadlock L HL Hnc s Hr) as [Hd|(t & s1 & Hs)].
   - exists [], s; simpl; repeat split; auto; lia.
   - pose proof (psi_decreases (kcL L) (kcL_ok L HL) _ _ _ Hs) as Hlt.
     destruct (IH (psi deps (kcL L) s1)) with (s := s1) as (sch & s' & Hrun & Hd & Hlen); auto; [lia|eapply creach_step; eauto|].
